@@ -133,6 +133,24 @@ func (ge *GuardEngine) Calls(fn *ssa.Function, env *Env, chain, ctx []string, de
 				continue
 			}
 			callee := ge.calleeOf(cc)
+			if callee == nil {
+				// a call through a package-level list of functions: every listed function is called
+				if fs := ge.calleesOf(cc); len(fs) > 1 {
+					for _, f := range fs {
+						if !ge.p.InModule(f) {
+							continue
+						}
+						cf := CallFact{Caller: fn, Callee: f, Name: FuncName(f), Pos: in.Pos(), Chain: chain}
+						for _, a := range cc.Args {
+							cf.Args = append(cf.Args, ge.pv.Atom(a, env))
+						}
+						cf.Ctx = append(append([]string{}, ctx...), ge.condCtx(fi, b, env)...)
+						out = append(out, cf)
+						out = append(out, ge.Calls(f, ge.calleeEnv(f, cc, env), chain, cf.Ctx, depth+1, seen)...)
+					}
+					continue
+				}
+			}
 			if callee == nil || !ge.p.InModule(callee) {
 				// builtins and external functions that write through an argument
 				if dst := externalWriteArg(cc); dst >= 0 && dst < len(cc.Args) {
